@@ -440,6 +440,123 @@ def shard_objects(m, items, inputs=()):
                             m.violation(f'object-kind/{kname}/later-parse-called-actions-of-earlier-object/{which}', **where)
 
 
+# ------------------------------------------------------------ values that compare equal across types
+
+TYPED_GRAMMAR = ("start: {value}+ $ ;\n\nvalue: t | o | f | z | n | e ;\n\nt: 'a' ;\n\no: 'b' ;\n\nf: 'c' ;\n\n"
+                 "z: 'd' ;\n\nn: 'e' ;\n\ne: 'f' ;\n")
+TYPED_VALUES = {'a': True, 'b': 1, 'c': 1.0, 'd': False, 'e': 0, 'f': 0.0}
+
+
+class Converting:
+    """Inner rules turn their text into values that are equal across types (True == 1 == 1.0, False == 0 == 0.0);
+    the action of `value` returns its argument, so it must be indistinguishable from no action on `value`."""
+
+    def t(self, ast):
+        return True
+
+    def o(self, ast):
+        return 1
+
+    def f(self, ast):
+        return 1.0
+
+    def z(self, ast):
+        return False
+
+    def n(self, ast):
+        return 0
+
+    def e(self, ast):
+        return 0.0
+
+
+class ConvertingWithIdentity(Converting):
+    def value(self, ast):
+        return ast
+
+    def start(self, ast):
+        return ast
+
+
+def shard_typed(m, items):
+    """What an action receives and what it returns is passed on as it is, type included."""
+    model = impl.compile_text(TYPED_GRAMMAR)
+    pcls, _src = c02.load_generated(model)
+    for toks in items:
+        text = ' '.join(toks)
+        want = repr([TYPED_VALUES[t] for t in toks])
+        for which in ('model', 'generated'):
+            for sname, factory in (('converting', Converting), ('converting+identity', ConvertingWithIdentity)):
+                import contextlib
+                import io
+                try:
+                    with contextlib.redirect_stderr(io.StringIO()):
+                        v = model.parse(text, semantics=factory()) if which == 'model' else pcls().parse(text, semantics=factory())
+                    got = repr(list(v) if isinstance(v, list) else v)
+                except Exception as ex:  # noqa
+                    got = f'{type(ex).__name__}'
+                m.add('evaluations')
+                m.add('states')
+                m.add('transitions')
+                m.add('nontrivial')
+                if got != want:
+                    m.violation(f'action-value-not-passed-on-as-it-is/{sname}/{which}', grammar=TYPED_GRAMMAR, input=text, got=got, want=want)
+
+
+# ------------------------------------------------------------ one parser object, another semantics object each parse
+
+def shard_reuse(m, items, inputs=()):
+    """A generated parser object is used for several parses, each with its own semantics argument (or none): every parse
+    gives what a fresh parser object gives with that argument, and calls only the actions of the object it was given."""
+    kinds = object_kinds()
+    menu = {'none': lambda: None, 'plain': kinds['plain'], 'plain-2': kinds['plain'], 'slots': kinds['slots']}
+    for name in items:
+        g = gs.Grammar(rules=FAMILY[name])
+        label = gs.render_grammar(g)
+        model = impl.compile_text(label)
+        pcls, _src = c02.load_generated(model)
+
+        def one(parser, text, sem):
+            import contextlib
+            import io
+            from tatsu.exceptions import ParseException
+            try:
+                with contextlib.redirect_stderr(io.StringIO()):
+                    return ('ok', impl.norm(parser.parse(text, **({'semantics': sem} if sem is not None else {}))))
+            except ParseException as e:
+                return ('fail', type(e).__name__)
+            except Exception as e:  # noqa
+                return ('exc', type(e).__name__, str(e)[:100])
+
+        for text in inputs:
+            fresh = {}
+            for k, f in menu.items():
+                sem = f()
+                fresh[k] = (one(pcls(), text, sem), list(sem.log) if sem is not None else None)
+            for hist in itertools.product(menu, repeat=2):
+                parser = pcls()
+                sems = []
+                for step, k in enumerate(hist):
+                    sem = menu[k]()
+                    before = [list(s.log) for s in sems]
+                    r = one(parser, text, sem)
+                    m.add('evaluations')
+                    m.add('transitions')
+                    if step:
+                        m.add('nontrivial')
+                    lg = list(sem.log) if sem is not None else None
+                    if (r, lg) != fresh[k]:
+                        m.violation('reused-parser-object/parse-differs-from-fresh-parser', grammar=label, input=text, history=list(hist), step=step,
+                                    got=[r, lg and lg[:4]], want=[fresh[k][0], fresh[k][1] and fresh[k][1][:4]])
+                        break
+                    if [list(s.log) for s in sems] != before:
+                        m.violation('reused-parser-object/actions-of-an-earlier-semantics-object-called', grammar=label, input=text, history=list(hist), step=step)
+                        break
+                    if sem is not None:
+                        sems.append(sem)
+                m.add('states')
+
+
 def canon(v):
     import json
     return json.dumps(v, sort_keys=True, default=repr)
@@ -480,6 +597,9 @@ def run(rc):
             items.append((name, rules, lr[i:i + 8], True))
     rc.pmap(shard_family, items, chunk=1)
     rc.pmap(shard_objects, ['retry', 'named', 'alias'], chunk=1, inputs=list(gs.inputs(['a', 'b', ' '], 3 if quick else 4)))
+    typed = [t for n in range(1, 4 if quick else 5) for t in itertools.product(sorted(TYPED_VALUES), repeat=n)]
+    rc.pmap(shard_typed, typed)
+    rc.pmap(shard_reuse, ['retry', 'named', 'alias'], chunk=1, inputs=list(gs.inputs(['a', 'b', ' '], 3 if quick else 4)))
     exps = [e for e in c01.expressions(3) if c01.in_language(e) is None and 'call' in gs.kinds(e)]
     rc.pmap(shard_exprs, exps, inputs=list(gs.inputs(['a', 'b', ' '], 3 if quick else 4)))
     c = rc.total.counts
@@ -488,7 +608,7 @@ def run(rc):
                f'FailedSemantics on (rule, value) predicates, {len(EXC_TYPES)} exception types raised from each rule, methods declaring parameters}}, model and generated parser; '
                'plus every C01 expression calling helper rules x inputs x {none, identity, tagging}; plus kinds of semantics *objects* (plain, dataclass with '
                'field equality and no hash, all instances equal, falsy empty container, __slots__) x two-parse histories with two '
-               'objects of the kind: results and call logs as for a plain object, each object sees its own parse only; non-trivial = accepted input')
+               'objects of the kind: results and call logs as for a plain object, each object sees its own parse only; plus actions returning values equal across types (True/1/1.0, False/0/0.0) under an identity action; plus one generated parser object reused for two parses with every pair of semantics arguments {none, object, another object, slotted object}; non-trivial = accepted input')
     rc.coverage.update({'states': c.get('states', 0), 'transitions': c.get('transitions', 0),
                         'traces_validated_against_impl': c.get('states', 0), 'programs': c.get('programs', 0)})
     rc.assumptions += ['reference: the evaluator runs actions as call-backs with no memoisation; the implementation may call an action fewer times (memo) but at least once per distinct successful (rule, position)',
